@@ -31,7 +31,7 @@ const watchdogS = 120
 
 // event kinds of the probe log
 const (
-	evBegin = iota
+	evBegin   = iota
 	evFailing // logged by a failing probe right before it fails (so the failure is in the log before it can be acted upon)
 	evEnd
 )
@@ -234,7 +234,7 @@ const goatFrag = "github.com/goatcms/goatcore/"
 
 // passive helper goroutines: they only move when somebody else moves first.
 var passiveFrags = []string{
-	"termexec.RunLoop.func1",        // argument reader waiting for "next"
+	"termexec.RunLoop.func1",         // argument reader waiting for "next"
 	"contextscope.NewIsolated.func1", // watches the parent context
 }
 
